@@ -27,10 +27,10 @@ META = {
             "rewritten window is outside the model). Rule side conditions exclude states the compiler does not produce "
             "(e.g. a StackMarker under `Store _`, Push nil before StoreIndex, a non-string LoadThis name). "
             "Known findings on the current tree: the global cache and registers change behaviour for late/shadowing "
-            "local declarations and out-of-scope uses (classes gcache:late-shadow, regs:shadow-const, regs:out-of-scope-use), and "
-            "in relaxed mode the optimizer level changes value and type of `v = v + k` on a non-int variable when the step is not a "
-            "literal constant (class opt:relaxed-nonconst-step; the fused Increment skips Store's coercion — outside C03's "
-            "constant-step theorem and outside IncrLaw's instance here).",
+            "local declarations and out-of-scope uses (classes gcache:late-shadow, regs:shadow-const, regs:out-of-scope-use). "
+            "Repaired in /repo (ea96483d): the fused Increment now reports an unknown variable and stores through Store's type "
+            "boundary exactly like the Load/Push/Add/Store sequence it replaces (was class opt:relaxed-nonconst-step), and LoadThis "
+            "unwraps constants.",
     "technique": "Lean 4 proof over a regenerated rule table + model/implementation correspondence + configuration cross-product oracle",
     "design_ref": "DESIGN.md §6 C02",
 }
